@@ -241,7 +241,7 @@ fn check(s: &Session, st: &mut Stats) -> CheckResult {
 fn run(cfg: &Cfg) -> Report {
     let mut rep = Report::new(
         cfg,
-        "proptest session histories of 3-13 inputs; an input is 0-3 successful statements (typed definitions and redefinitions of variables and functions, units, base units with new dimensions, derived dimensions, structs, imports of non-prelude modules, expressions, prints, ans/_) optionally followed by a failing statement of one of 16 kinds (unknown module, 4 parse errors, name clash, reserved identifier, 4 type errors, division by zero, failed assert/assert_eq, error(), run-time error inside a called function, 3 run-time failures in inputs that define nothing) and further statements; a quarter of the failing inputs are wrapped into an `ans` probe (an expression input before, an expression in front of the failing statement, a use of ans/_ in the next input). Oracle (metamorphic + invariant): the history is run on session A and, with the failing inputs deleted, on session B; after every input the complete definition digests agree (function signatures, unit definitions, dimensions, raw values of all variables), every successful input yields the same result/prints/error kind in A and B, and at the end every name defined inside a failed input gives the same probe result in both and every module imported inside a failed input imports with the same effect. non-trivial = a failing input with earlier successful statements, followed by a later input; distinct = the rendered history",
+        "proptest session histories of 3-13 inputs; an input is 0-3 successful statements (typed definitions and redefinitions of variables and functions, units, base units with new dimensions, derived dimensions, structs, imports of non-prelude modules, expressions, prints, ans/_) optionally followed by a failing statement of one of 19 kinds (unknown module, 4 parse errors, name clash with a prelude unit, reserved identifier, 4 type errors, division by zero, failed assert/assert_eq, error(), run-time error inside a called function, 3 run-time failures in inputs that define nothing, 3 clashes with a variable, function or unit the session itself defined) and further statements; a quarter of the failing inputs are wrapped into an `ans` probe (an expression input before, an expression in front of the failing statement, a use of ans/_ in the next input). Oracle (metamorphic + invariant): the history is run on session A and, with the failing inputs deleted, on session B; every failing input fails in the same way on a throw-away copy of B; after every input the complete definition digests agree (function signatures, unit definitions, dimensions, raw values of all variables), every successful input yields the same result/prints/error kind in A and B, and at the end every name defined inside a failed input gives the same probe result in both and every module imported inside a failed input imports with the same effect. non-trivial = a failing input with earlier successful statements, followed by a later input; distinct = the rendered history",
     );
     let cases = cfg.tier.pick(500u32, 6000u32);
     rep.absorb(run_proptest(
